@@ -186,6 +186,22 @@ func (r *Report) Emit() int {
 		if kf := matchKnown(kfs, v); kf != nil {
 			fmt.Printf("KNOWN-FINDING: property=%s key=%s %s (%d occurrences this run)\n", v.Property, v.Sig, kf.Text, len(vs))
 			r.KnownHits[v.Sig] += len(vs)
+			if dir := os.Getenv("VERIF_KNOWN_REPLAYS"); dir != "" {
+				// a replayable artefact of the shortest occurrence of a known finding (committed under findings/)
+				_ = os.MkdirAll(dir, 0o755)
+				name := strings.Map(func(c rune) rune {
+					if c >= 'a' && c <= 'z' || c >= 'A' && c <= 'Z' || c >= '0' && c <= '9' || c == '-' || c == '.' {
+						return c
+					}
+					return '_'
+				}, v.Sig)
+				if len(name) > 120 {
+					name = name[:120]
+				}
+				art := map[string]any{"check": r.Property, "tier": r.Tier, "violation": v, "occurrences": len(vs), "known_finding": kf.Key}
+				b, _ := json.MarshalIndent(art, "", " ")
+				_ = os.WriteFile(filepath.Join(dir, fmt.Sprintf("%s-%s.json", v.Property, name)), b, 0o644)
+			}
 			continue
 		}
 		n++
